@@ -68,6 +68,13 @@ def all_entity_classes():
     return out
 
 
+def all_schema_modules():
+    """names of every non-package module under kio.schema (package walk), incl. modules that define no class"""
+    import kio.schema
+
+    return sorted(mi.name for mi in pkgutil.walk_packages(kio.schema.__path__, "kio.schema.") if not mi.ispkg)
+
+
 def class_id(cls):
     return f"{cls.__module__}:{cls.__qualname__}"
 
